@@ -236,12 +236,12 @@ pub fn case_seed(seed: u64, id: &str, shard: u32, i: u64) -> u64 {
     buf.extend_from_slice(id.as_bytes());
     buf.extend_from_slice(&shard.to_le_bytes());
     buf.extend_from_slice(&i.to_le_bytes());
-    let mut r = crate::gen::Rng::new(fnv64(&buf));
+    let mut r = crate::gen::Prng::new(fnv64(&buf));
     r.next()
 }
 
 fn seed_bytes(seed: u64) -> [u8; 32] {
-    let mut r = crate::gen::Rng::new(seed);
+    let mut r = crate::gen::Prng::new(seed);
     let mut b = [0u8; 32];
     r.fill(&mut b);
     b
